@@ -51,7 +51,7 @@ type LinCtx struct {
 	// callFacts, when set, returns facts about the result of an in-repo call (return facts)
 	callFacts func(c *ssa.Call) []Lin
 	// entry facts (each ≤ 0) that hold throughout the function (constant parameters of unexported functions)
-	entry []Lin
+	entry    []Lin
 	phiDepth int
 }
 
@@ -633,8 +633,8 @@ func (c *LinCtx) lenCompute(v ssa.Value) Lin {
 var digestLen = map[string]int64{
 	"github.com/gcash/bchd/chaincfg/chainhash.DoubleHashB": 32,
 	"github.com/gcash/bchd/chaincfg/chainhash.HashB":       32,
-	ModPath + ".Hash160":                                    20,
-	ModPath + ".Hash256":                                    32,
+	ModPath + ".Hash160": 20,
+	ModPath + ".Hash256": 32,
 }
 
 // ---- facts
@@ -823,8 +823,8 @@ func (c *LinCtx) Intrinsic(ls []Lin, nn nonNegProver) []Lin {
 				}
 				if kk > 0 && nonNeg(x.X) {
 					xl := c.linP(x.X, nn)
-					emit(al.scale(kk).add(xl, -1))               // k·q ≤ x
-					emit(xl.add(al, -kk).addConst(-(kk - 1)))     // x ≤ k·q + k−1
+					emit(al.scale(kk).add(xl, -1))            // k·q ≤ x
+					emit(xl.add(al, -kk).addConst(-(kk - 1))) // x ≤ k·q + k−1
 				}
 			case token.REM:
 				if nonNeg(x.X) && nonNeg(x.Y) {
